@@ -5,7 +5,8 @@ a_tasks / a_submit register as call-site contracts with checks against the real 
  Task._wait_until_all_complete         result() of every future, once, in order; failures of the awaited tasks are ignored here
  Task._wait_on_dependent_futures       waits for every pending future (single ones and those in lists)
  Task._get_all_main_kwargs             main kwargs + the results of the pending futures (lists: results in list order)
- utils.get_callbacks                   one callback per subscriber that has on_<type>, in subscriber order, bound to the future
+ DownloadOutputManager.get_io_write_task / streaming variant: the write task carries exactly the given file object, data (and offset)
+ GetObjectWorker._write_to_file        (process pool) the whole body, in order, at the job's offset of the temp file
 """
 import z3
 
@@ -181,3 +182,89 @@ def register(R):
     cg.props, cg.checks, cg.param_alternatives = ('C01', 'C03', 'C05'), gamk_checks, ALTS
     cg.raises = {'Exception': only_propagates}
     cg.loops = {1: LoopSpec(invariant=gamk_inner_inv, local_types={'result': ListOfT(ExtT('future_result'), name='results')})}
+
+    # ------------------------------------------------------------------ write tasks of the output managers
+    DL = 's3transfer.download'
+    DOM, DNS = f'{DL}:DownloadOutputManager', f'{DL}:DownloadNonSeekableOutputManager'
+
+    def iot_checks(cls_name, keys):
+        def chk(c):
+            h = c.new.obj(c.result) if isinstance(c.result, Ref) and c.new.obj(c.result).kind == 'obj' else None
+            okk = h is not None and h.cls.name == cls_name and h.fields.get('_transfer_coordinator') is c.oldf('_transfer_coordinator') \
+                and h.fields.get('_is_final') is False
+            mk = c.new.obj(h.fields['_main_kwargs']).items if okk and isinstance(h.fields.get('_main_kwargs'), Ref) else None
+            want = {k: c.args[k] for k in keys}
+            return {'write_task_for_exactly_this_file_data_and_offset': (B(bool(okk) and mk is not None and set(mk) == set(want)
+                                                                          and all(mk[k] is v for k, v in want.items())), ['C02', 'C16'])}
+        return chk
+
+    for target, cls_name, keys in ((f'{DOM}.get_io_write_task', 'IOWriteTask', ('fileobj', 'data', 'offset')),
+                                   (f'{DNS}.get_io_write_task', 'IOStreamingWriteTask', ('fileobj', 'data'))):
+        cc = R.contracts[target]
+        cc.props = tuple(sorted(set(cc.props) | {'C02', 'C16'}))
+        cc.checks = iot_checks(cls_name, keys)
+        cc.raises = {}
+
+    # ------------------------------------------------------------------ process pool: GetObjectWorker._write_to_file
+    PP = 's3transfer.processpool'
+    WRK = f'{PP}:GetObjectWorker'
+
+    def pp_write_effect(eng, st, recv, args, kwargs, result):
+        d = args[0]
+        st.ghost['pp_written'] = z3.simplify(to_int_term(st.ghost.get('pp_written', z3.IntVal(0))) + to_int_term(d.hi) - to_int_term(d.lo))
+
+    R.external('pp_file', __enter__=ExtSpec(returns=lambda eng, st, recv, a, k: recv, pure=True), __exit__=ExtSpec(raises=('OSError',)),
+               seek=ExtSpec(raises=('OSError',)), write=ExtSpec(raises=('OSError',), effect=pp_write_effect))
+    from pyvc.engine import ok, rs
+    from pyvc.values import ExcV, fresh_name
+
+    def open_model(eng, st, args, kwargs, line):
+        from pyvc.state import Event
+        s2 = st.fork()
+        exc = ExcV('OSError', (), tag=fresh_name('open_exc'))
+        s2.trace.append(Event('ext', 'open', None, args, kwargs, None, line, s2.held, extra={'raised': exc}))
+        f = Opaque(fresh_name('opened_file'), kind='pp_file')
+        st.trace.append(Event('ext', 'open', None, args, kwargs, f, line, st.held))
+        return [rs(exc, s2), ok(f, st)]
+    R.builtin_models['open'] = open_model
+
+    def wtf_setup(eng, st, args, self_val):
+        st.ghost['get_object_start'] = z3.IntVal(0)
+        st.ghost['pp_written'] = z3.IntVal(0)
+        R.body_state(st, args['body'])
+
+    def body_of(st):
+        keys = [k for k in st.ghost if isinstance(k, tuple) and k[0] == 'body']
+        return st.ghost[keys[-1]]
+
+    def wtf_inv(l):
+        return {'written_so_far_is_the_body_prefix_read': to_int_term(l.st.ghost['pp_written']) == body_of(l.st)['pos']}
+
+    def wtf_iteration(l0, l1, evs):
+        wr = [e for e in evs if e.kind == 'ext' and e.name == 'pp_file.write']
+        g0, g1 = body_of(l0.st), body_of(l1.st)
+        out = {'one_write_per_chunk': (B(len(wr) == 1), ['C02', 'C19'])}
+        if len(wr) == 1:
+            d = wr[0].args[0]
+            out['chunk_written_is_the_next_body_bytes'] = (z3.And(to_int_term(d.lo) == g0['pos'], to_int_term(d.hi) == g1['pos']), ['C02', 'C19'])
+        return out
+
+    def wtf_checks(c):
+        tr = c.trace
+        op = [e for e in tr if e.kind == 'ext' and e.name == 'open']
+        sk = exts(tr, 'pp_file.seek')
+        loops = [e for e in tr if e.kind == 'loop']
+        g = body_of(c.new.st)
+        return {
+            'existing_temp_file_opened_for_update_not_truncated': (B(len(op) == 1 and op[0].args[:2] == (c.a_filename, 'rb+')), ['C02', 'C19', 'C06']),
+            'positions_at_the_jobs_offset_before_writing': (B(len(sk) == 1 and sk[0].args == (c.a_offset,) and bool(loops)
+                                                              and index_of(tr, sk[0]) < index_of(tr, loops[0])), ['C02', 'C19']),
+            'returns_only_after_the_whole_body_was_written': (z3.And(g['pos'] == g['len'], to_int_term(c.new.st.ghost['pp_written']) == g['len']), ['C02', 'C03', 'C19']),
+        }
+
+    cwf = R.contracts[f'{WRK}._write_to_file']
+    cwf.params = dict(filename=ExtT('str'), offset=Int, body=ExtT('respdict'))
+    cwf.props, cwf.setup, cwf.checks = ('C02', 'C03', 'C19', 'C06'), wtf_setup, wtf_checks
+    cwf.raises = {'Exception': only_propagates}
+    cwf.modifies = lambda c: [('g', ('body', c.a_body.label), 'pos')] if isinstance(c.a_body, Opaque) else []
+    cwf.loops = {0: LoopSpec(invariant=wtf_inv, iteration_checks=wtf_iteration)}
